@@ -1372,7 +1372,12 @@ fn main() {
                                 // header edit. Retry once on a fresh connection, then give up as inconclusive.
                                 let gateway = rec.is_none() && ["502", "503", "504"].iter().any(|c| seen.status.contains(c))
                                     && case.raw["ereq"]["outcome"] == "forward";
-                                if gateway {
+                                // RST_STREAM(REFUSED_STREAM) without any backend record: sozu declined the stream before
+                                // processing it (RFC 9113 8.7: safe to retry) - momentary concurrency back-pressure on the
+                                // shared HTTP/2 connection of the lane under load, not a header edit.
+                                let refused = rec.is_none() && seen.reset.as_deref().is_some_and(|r| r.contains("code=7"))
+                                    && case.raw["ereq"]["outcome"] == "forward";
+                                if gateway || refused {
                                     h1.conn = None;
                                     if attempt == 0 {
                                         attempt = 1;
@@ -1381,7 +1386,7 @@ fn main() {
                                         continue;
                                     }
                                     stats.inconclusive.fetch_add(1, Ordering::Relaxed);
-                                    eprintln!("inconclusive case {}: gateway error {} twice", case.idx, seen.status);
+                                    eprintln!("inconclusive case {}: gateway error {} / refused stream {:?} twice", case.idx, seen.status, seen.reset);
                                     break;
                                 }
                                 let problems = check_case(&sh, case, &seen, &sent, &truth, rec.as_ref(), &stats);
